@@ -30,7 +30,7 @@ func init() {
 			Rule:        "same populations as C11; each committed Merge's MetaStore.Update (writes, deletes) is mapped back to source blocks through row ids: combined blocks within MaxRowGroupRows/Bytes and from one partition + one minmax key set, copied blocks identical, deletes <= MaxFilesToMergePerOperation, sources per output <= MaxFileSize (sum of block on-disk sizes); non-trivial = committed Merge that combined at least two blocks; distinct = distinct (population, round)",
 			Assumptions: []string{"a file's size for merging = sum of its blocks' OnDiskSize() (the engine's documented measure)"},
 			Floors:      map[string]int64{"merges_committed": 15, "blocks_combined": 10}},
-		Cases: func(t string) int { return nQueries(t, 64, 2000) },
+		Cases: func(t string) int { return nQueries(t, 128, 3000) },
 		Run:   func(rc *RunCtx, i int) { runMergeCase(rc, i, false) },
 	})
 }
@@ -60,7 +60,7 @@ func runMergeCase(rc *RunCtx, i int, content bool) {
 	r := rc.CaseRand(i)
 	caseID := fmt.Sprintf("%s%d_%d", strings.ToLower(rc.ID), rc.Seed, i)
 	log := stores.NewLog(&stores.Clock{})
-	o := world.BuildOpts{NoMerge: true, MaxRows: 120}
+	o := world.BuildOpts{NoMerge: true, MaxRows: 120, ManyFiles: i%2 == 1}
 	w, d, err := world.BuildWith(r, caseID, o, func(w *world.World) { w.Instrument(log) })
 	if err != nil {
 		rc.Violate(i, "scenario-failed", "", "fault-free scenario failed: "+err.Error(), nil)
@@ -72,7 +72,7 @@ func runMergeCase(rc *RunCtx, i int, content bool) {
 	mspec.RGRows = core.Pick(r, []int{1, 2, 4, 8, 20, 100, 10000})
 	mspec.RGBytes = core.Pick(r, []int{100, 400, 1500, 6000, 50000, 10 << 20})
 	mspec.MaxFileSize = core.Pick(r, []int{500, 3000, 20000, 1 << 20, 10 << 30})
-	mspec.MergeFiles = core.Pick(r, []int{2, 2, 3, 4, 10, 100})
+	mspec.MergeFiles = core.Pick(r, []int{2, 2, 3, 3, 4, 5, 10, 100})
 	mi, err := w.AddEngine(mspec)
 	if err != nil {
 		rc.Violate(i, "scenario-failed", "", "merge engine: "+err.Error(), nil)
@@ -134,6 +134,9 @@ func runMergeCase(rc *RunCtx, i int, content bool) {
 			return
 		}
 		rc.Res.Count("merges_committed", 1)
+		if len(upds[0].Writes) > 1 {
+			rc.Res.Count("merges_with_several_groups", 1)
+		}
 		after, err := w.Inventory()
 		if err != nil {
 			rc.Violate(i, "inventory-failed", "", "after merge: "+err.Error(), d)
